@@ -205,6 +205,19 @@ func runC13(c *Ctx) {
 				okRange = isRevisionsSlice(sl.X, fRevisions)
 			}
 		}
+		if phi, ok := rl.Index.(*ssa.Phi); ok && rl.Kind == "for-index" && isRevisionsSlice(rl.Coll, fRevisions) {
+			// the same walk with an index: for i := LastIndex(Current)+1; i < len(Revisions); i++
+			okRange = true
+			for i, e := range phi.Edges {
+				if rl.Header.Dominates(rl.Header.Preds[i]) {
+					continue
+				}
+				bo, ok := Strip(e).(*ssa.BinOp)
+				if !ok || bo.Op != token.ADD || !VConstInt(1)(bo.Y) || !VRes(0, CallWhere(ToFn(lastIndex), 1, VField(fCurrent)))(bo.X) {
+					okRange = false
+				}
+			}
+		}
 		c.Check(okRange, pkg+".(*SnapState).Block#range", blk.Pos(), "walks Sequence.Revisions[LastIndex(Current)+1:]", "Block no longer walks exactly the revisions after the current one (Sequence.Revisions[LastIndex(Current)+1:])")
 	}
 }
